@@ -91,7 +91,10 @@ def extract_function(f, yp, outputs, bdd):
             p, n = pz, nz
     # restrict
     care = (p & ~ n) | (n & ~ p)
-    if _bdd is None:
+    # `restrict` is available only for nodes of a `dd.cudd.BDD`
+    # (the manager `bdd` can be a `dd.autoref.BDD` even when
+    # `dd.cudd` is installed)
+    if _bdd is None or not isinstance(p, _bdd.Function):
         g = p
     else:
         g = _bdd.restrict(p, care)
